@@ -405,6 +405,19 @@ def run_check(pid: str, main: Callable[[Check], None]):
             i += 1
         i += 1
     seed = int(os.environ.get("VERIF_SEED", "0"))
+    if replay is not None:
+        # every random choice of a check derives from (property, seed): re-running the recorded tier with the
+        # recorded seed re-executes the recorded failing inputs (they are printed first for the reader)
+        rp = Path(replay)
+        if not rp.is_absolute():
+            rp = VERIF / rp
+        rec = json.loads(rp.read_text())
+        tier, seed = rec.get("tier", tier), int(rec.get("seed", seed))
+        print(f"[{pid}] replaying {rp} (tier={tier}, seed={seed}); recorded failing inputs:")
+        for f in rec.get("failing_inputs", [])[:5]:
+            print("  ", json.dumps(f, ensure_ascii=False, default=str)[:600])
+        for b in rec.get("no_longer_checks", [])[:5]:
+            print("   no longer checks:", json.dumps(b, ensure_ascii=False, default=str)[:400])
     ck = Check(pid, tier, seed)
     ck.replay = replay
     try:
